@@ -5,7 +5,18 @@
    (the request is held inside the read lock until released), or release a gate.  The harness lets
    the implementation settle after every command (except in stress scenarios) and reports, per
    request: whether it returned, what it answered, and after which command it was first seen
-   finished; and whether executionConfigMu could be taken afterwards. *)
+   finished; and whether executionConfigMu could be taken afterwards.
+
+   Scenarios run in a child process of the harness: when that process dies on a scenario (a fatal
+   error of the Go runtime such as "concurrent map writes", a panic in a goroutine of the service),
+   this is the observed outcome of the scenario ([c_crashed]): no request of it has returned.
+
+   A command may stand for a whole series of requests made one after the other by one goroutine for
+   distinct validators with the same settings (harness input field "many"), and a group of commands may
+   be issued without settling in between (field "nosettle": the requests overlap; the generators never
+   put a refresh in such a group, so the answers are determined).  The interpreter treats a series as
+   one request: its answer is the common answer of the series ([RAny], never an expected answer, when
+   the answers of one series differ). *)
 From Verif Require Export Lib.Base Lib.Lockset Model.C12_ConfigLock.
 
 Record obs := {
@@ -22,7 +33,11 @@ Record case := {
   c_cmds : list cmd;
   c_obs : list obs;        (* per spawned request, in spawn order *)
   c_lock_free : bool;      (* TryLock of executionConfigMu succeeded after the final wait *)
-  c_timeouts : nat         (* settles that ran into the watchdog *)
+  c_timeouts : nat;        (* settles that ran into the watchdog *)
+  c_crashed : bool;        (* the process running the scenario died on it *)
+  c_reader_writes : nat    (* source scan (one case per run): statements on the lookup path (ExecutionConfig.ProposerConfig
+                              of v1/v2, Service.ProposerConfig and what they call) that write to the shared configuration
+                              or to package-level state; the model's lookups only read (MRead) *)
 }.
 
 Definition result_eqb (a b : result) : bool :=
@@ -46,7 +61,11 @@ Fixpoint zip_all {A B} (f : A -> B -> bool) (l1 : list A) (l2 : list B) : bool :
    theorems) predicts the same returns, the same answers and the same final lock state *)
 Definition agree (c : case) : bool :=
   let '(pred, lf, _) := predict false (c_url c) (c_init c) (c_cmds c) in
-  zip_all (fun (p : bool * result) (o : obs) =>
+  (* no step of the model ends the process *)
+  negb (c_crashed c)
+  (* lookups, auctions and registration rounds only read the configuration they are given *)
+  && (c_reader_writes c =? 0)%nat
+  && zip_all (fun (p : bool * result) (o : obs) =>
              Bool.eqb (fst p) (o_fin o) && (c_stress c || negb (fst p) || res_match (snd p) (o_res o)))
           pred (c_obs c)
   && Bool.eqb lf (c_lock_free c)
@@ -137,6 +156,7 @@ End Values.
 Definition P_b (c : case) : bool :=
   let sps := spawn_indices 0 (c_cmds c) in
   (length sps =? length (c_obs c)) &&
+  negb (c_crashed c) &&                                      (* a process that died returns nothing, ever *)
   (negb (gates_released (c_cmds c)) ||
    (forallb o_fin (c_obs c)                                  (* every request returns *)
     && c_lock_free c                                         (* no lock left held, no writer wedged *)
@@ -148,9 +168,18 @@ Definition violations (cs : list case) : list N := failing_ids c_id P_b cs.
 (* what P_b = true means, at least *)
 Lemma P_b_sound (c : case) :
   P_b c = true -> gates_released (c_cmds c) = true ->
-  (forall o, In o (c_obs c) -> o_fin o = true) /\ c_lock_free c = true.
+  (forall o, In o (c_obs c) -> o_fin o = true) /\ c_lock_free c = true /\ c_crashed c = false.
 Proof.
   unfold P_b. intros H Hg. rewrite Hg in H. cbn [negb orb] in H.
-  apply andb_true_iff in H as [_ H]. apply andb_true_iff in H as [H _]. apply andb_true_iff in H as [H1 H2].
-  split; [|exact H2]. rewrite forallb_forall in H1. exact H1.
+  apply andb_true_iff in H as [H H']. apply andb_true_iff in H as [_ Hc].
+  apply andb_true_iff in H' as [H _]. apply andb_true_iff in H as [H1 H2].
+  split; [|split; [exact H2|]].
+  - rewrite forallb_forall in H1. exact H1.
+  - destruct (c_crashed c); [discriminate|reflexivity].
+Qed.
+
+(* a scenario on which the process died violates the property whatever else was observed *)
+Lemma P_b_crashed (c : case) : c_crashed c = true -> P_b c = false.
+Proof.
+  unfold P_b. intros H. rewrite H. cbn [negb]. rewrite andb_false_r. reflexivity.
 Qed.
